@@ -23,8 +23,9 @@ mod probes {
             SpecialConfig {
                 pad: "<pad>".to_string(),
                 tokens: tokens.iter().map(|s| s.to_string()).collect(),
-                prefix: if fix { vec!["<bos>".to_string()] } else { vec![] },
-                suffix: if fix { vec!["<eos>".to_string()] } else { vec![] },
+                // two DISTINCT prefix tokens and two distinct suffix tokens: order matters
+                prefix: if fix { vec!["<bos>".to_string(), "<unk>".to_string()] } else { vec![] },
+                suffix: if fix { vec!["<eos>".to_string(), "<pad>".to_string()] } else { vec![] },
             }
         }
 
@@ -75,9 +76,15 @@ mod probes {
                     else { inner.extend(seg.bytes().map(|b| b as u32)); }
                 }
             }
-            let mut want: Vec<u32> = t.prefix_token_ids().to_vec();
+            // prefix / suffix ids from the CONFIGURATION (not from the tokenizer's own accessor), in the configured order
+            let fix_ids = |names: &[&str]| -> Result<Vec<u32>, String> { names.iter().map(|n| t.token_to_id(n).ok_or(format!("{what}: no id for {n}"))).collect() };
+            let (pre, suf) = if fix { (fix_ids(&["<bos>", "<unk>"])?, fix_ids(&["<eos>", "<pad>"])?) } else { (vec![], vec![]) };
+            if t.prefix_token_ids() != pre.as_slice() || t.suffix_token_ids() != suf.as_slice() {
+                return Err(format!("{what}: prefix/suffix ids {:?}/{:?}, configured {pre:?}/{suf:?}", t.prefix_token_ids(), t.suffix_token_ids()));
+            }
+            let mut want: Vec<u32> = pre.clone();
             want.extend(&inner);
-            want.extend(t.suffix_token_ids());
+            want.extend(&suf);
             if tok.token_ids != want {
                 return Err(format!("{what} = {:?}, expected prefix ids + UTF-8 bytes (special tokens as single ids) + suffix ids = {want:?}", tok.token_ids));
             }
@@ -99,7 +106,12 @@ mod probes {
             let r = std::panic::catch_unwind(std::panic::AssertUnwindSafe(|| t.tokenize(text, ignore)));
             let tok = match r { Err(_) => return Err(format!("{what} panics")), Ok(Err(e)) => return Err(format!("{what} failed: {e}")), Ok(Ok(t)) => t };
             let unk = t.token_to_id("<unk>").ok_or("no unk id")?;
-            let mut want: Vec<u32> = t.prefix_token_ids().to_vec();
+            let cfg_ids = |names: &[&str]| -> Vec<u32> { names.iter().filter_map(|n| t.token_to_id(n)).collect() };
+            let (pre, suf) = if fix { (cfg_ids(&["<bos>", "<unk>"]), cfg_ids(&["<eos>", "<pad>"])) } else { (vec![], vec![]) };
+            if t.prefix_token_ids() != pre.as_slice() || t.suffix_token_ids() != suf.as_slice() {
+                return Err(format!("{what}: prefix/suffix ids {:?}/{:?}, configured {pre:?}/{suf:?}", t.prefix_token_ids(), t.suffix_token_ids()));
+            }
+            let mut want: Vec<u32> = pre.clone();
             let mut in_alphabet = true;
             let segs: Vec<(bool, &str)> = if ignore { vec![(false, text)] } else { segments(text, &toks) };
             for (is_special, seg) in segs {
@@ -111,8 +123,8 @@ mod probes {
                     match id { Some(id) => want.push(id), None => { in_alphabet = false; want.push(unk); } }
                 }
             }
-            let n_inner = want.len() - t.prefix_token_ids().len();
-            want.extend(t.suffix_token_ids());
+            let n_inner = want.len() - pre.len();
+            want.extend(&suf);
             if tok.token_ids != want {
                 return Err(format!("{what} = {:?}, expected one id per character (unknown id {unk} outside the alphabet): {want:?}", tok.token_ids));
             }
@@ -742,6 +754,10 @@ mod probes {
                     let tr: Vec<(String, String, String)> = input["triples"].as_array().map(|a| a.iter().map(|x| (x[0].as_str().unwrap_or("").to_string(), x[1].as_str().unwrap_or("").to_string(), x[2].as_str().unwrap_or("").to_string())).collect()).unwrap_or_default();
                     return check_ws(&tr, input["mode"].as_u64().unwrap_or(2) as usize, input["seq_avg"].as_bool().unwrap_or(true), input["beta"].as_f64().unwrap_or(1.0), input["graphemes"].as_bool().unwrap_or(true));
                 }
+                Some("med") => {
+                    let ps: Vec<(String, String)> = input["pairs"].as_array().map(|a| a.iter().map(|x| (x[0].as_str().unwrap_or("").to_string(), x[1].as_str().unwrap_or("").to_string())).collect()).unwrap_or_default();
+                    return check_med(&ps, input["graphemes"].as_bool().unwrap_or(true));
+                }
                 Some("spelling") => {
                     return check_spelling(input["input"].as_str().unwrap_or(""), input["pred"].as_str().unwrap_or(""), input["target"].as_str().unwrap_or(""), input["seq_avg"].as_bool().unwrap_or(true), input["graphemes"].as_bool().unwrap_or(true)).map_err(|e| e.1);
                 }
@@ -822,9 +838,36 @@ mod probes {
             Ok(())
         }
 
+        /// mean (normalised) edit distance equals its defining formula: the mean of edit::distance over the pairs
+        pub fn check_med(pairs: &[(String, String)], g: bool) -> Result<(), String> {
+            use crate::edit::distance;
+            use crate::metrics::{mean_edit_distance, mean_normalized_edit_distance};
+            let (a, b): (Vec<&str>, Vec<&str>) = (pairs.iter().map(|p| p.0.as_str()).collect(), pairs.iter().map(|p| p.1.as_str()).collect());
+            for normalized in [false, true] {
+                let got = if normalized { mean_normalized_edit_distance(&a, &b, g) } else { mean_edit_distance(&a, &b, g) }.map_err(|e| e.to_string())?;
+                let want: f64 = pairs.iter().map(|(x, y)| distance(x, y, g, false, false, normalized)).sum::<f64>() / pairs.len().max(1) as f64;
+                if !got.is_finite() || (got - want).abs() > 1e-9 {
+                    return Err(format!("mean{} edit distance of {pairs:?} (graphemes={g}) = {got}, the mean of the pairwise distances is {want}", if normalized { " normalized" } else { "" }));
+                }
+            }
+            Ok(())
+        }
+
         pub fn search_all() -> (Vec<(Value, String, String)>, usize) {
             let mut found: Vec<(Value, String, String)> = vec![];
             let mut cases = 0usize;
+            // mean edit distances: clean lower-case ASCII sentences (clean / normalize inside the function are the identity on them)
+            let ws = ["abc", "xyz", "this is a tset", "this is a test", "same", ""];
+            for g in [true, false] { for i in 0..ws.len() { for j in 0..ws.len() { for k in 0..ws.len() {
+                let pairs = vec![(ws[i].to_string(), ws[j].to_string()), (ws[k].to_string(), ws[(i + j) % ws.len()].to_string())];
+                cases += 1;
+                if let Err(e) = check_med(&pairs, g) {
+                    if !found.iter().any(|(_, _, c)| c == "mean-edit-distance") {
+                        let ps: Vec<Vec<String>> = pairs.iter().map(|p| vec![p.0.clone(), p.1.clone()]).collect();
+                        found.push((json!({"what": "med", "pairs": ps, "graphemes": g}), e, "mean-edit-distance".to_string()));
+                    }
+                }
+            } } } }
             // whitespace: inputs = the non-whitespace text "abcd" with every placement of single spaces
             let base = ["a", "b", "c", "d"];
             let variants: Vec<String> = (0u32..8).map(|m| { let mut s = String::new(); for (k, c) in base.iter().enumerate() { if k > 0 && m & (1 << (k - 1)) != 0 { s.push(' '); } s.push_str(c); } s }).collect();
@@ -975,6 +1018,10 @@ mod probes {
         }
 
         pub fn replay(input: &Value) -> Result<(), String> {
+            if input["what"].as_str() == Some("task") {
+                return check_task(input["text"].as_str().unwrap_or(""), input["iw"].as_f64().unwrap_or(0.5), input["dw"].as_f64().unwrap_or(0.5),
+                                  input["graphemes"].as_bool().unwrap_or(true), input["seed"].as_u64().unwrap_or(0));
+            }
             check(
                 input["text"].as_str().unwrap_or(""),
                 input["iw"].as_f64().unwrap_or(0.5),
@@ -982,6 +1029,32 @@ mod probes {
                 input["graphemes"].as_bool().unwrap_or(true),
                 input["seed"].as_u64().unwrap_or(0),
             )
+        }
+
+        /// "the whitespace-correction task always obtains one label per input character": train_task(WhitespaceCorrection)
+        /// on the corrupted item yields as many labels as token ids (character tokenizer, <bos>/<eos>)
+        pub fn check_task(text: &str, iw: f64, dw: f64, g: bool, seed: u64) -> Result<(), String> {
+            use crate::data::task::{train_task, TrainTaskConfig};
+            use crate::data::TrainTaskInput;
+            use crate::tokenization::{CharTokenizerConfig, SpecialConfig, TokenizeConfig, TokenizerConfig};
+            let f = preprocessing(PreprocessingFnConfig::WhitespaceCorruption(Part::Input, iw, dw, g));
+            let (item, _) = f(TrainData::new(text.to_string(), None), TextDataInfo { seed, ..Default::default() }).map_err(|e| e.to_string())?;
+            let task = train_task(TrainTaskConfig::WhitespaceCorrection(g, TokenizerConfig {
+                tokenize: TokenizeConfig::Character(CharTokenizerConfig { use_graphemes: g, unk_token: "<unk>".to_string() }),
+                special: SpecialConfig { prefix: vec!["<bos>".to_string()], suffix: vec!["<eos>".to_string()], ..Default::default() },
+            }));
+            let what = format!("train_task(WhitespaceCorrection) after corrupt_whitespace(iw={iw}, dw={dw}, graphemes={g}, seed={seed}) on {text:?}");
+            match task(&item) {
+                Ok(TrainTaskInput::SequenceClassification { token_ids, labels, .. }) => {
+                    let n = CS::new(&input_of(&item), g).len() + 2;
+                    if token_ids.len() != labels.len() || labels.len() != n {
+                        return Err(format!("{what}: {} token ids, {} labels, the input has {} characters + prefix + suffix = {n}", token_ids.len(), labels.len(), n - 2));
+                    }
+                    Ok(())
+                }
+                Ok(_) => Err(format!("{what}: not a sequence classification input")),
+                Err(e) => Err(format!("{what} failed: {e}")),
+            }
         }
 
         /// BOUND: every whitespace-clean text of at most 4 code points over the alphabet below (letters, space, CR, LF, a
@@ -1015,10 +1088,21 @@ mod probes {
                     }
                 }
             }
+            // the task function: texts that literally contain special-token spellings, all probabilities
+            for t in ["a b", "fill <pad> x", "<eos>", "a<bos> b<unk>", "x <pad><eos> y z"] {
+                for g in [true, false] { for (iw, dw) in [(1.0, 0.0), (0.0, 1.0), (0.5, 0.5)] { for seed in 0..3u64 {
+                    cases += 1;
+                    if let Err(e) = check_task(t, iw, dw, g, seed) {
+                        if !found.iter().any(|(_, _, c)| c == "task-labels") {
+                            found.push((json!({"what": "task", "text": t, "iw": iw, "dw": dw, "graphemes": g, "seed": seed}), e, "task-labels".to_string()));
+                        }
+                    }
+                } } }
+            }
             (found, cases)
         }
         pub fn search() -> Option<(Value, String)> {
-            search_all().0.into_iter().find(|(_, _, c)| c == "other").map(|(i, e, _)| (i, e))
+            search_all().0.into_iter().find(|(_, _, c)| c != "grapheme-resegmentation").map(|(i, e, _)| (i, e))
         }
     }
 
@@ -1072,12 +1156,15 @@ mod probes {
             Ok(())
         }
 
-        pub fn check_sparse(texts: &[&str], g: bool, code_points: bool, fix: bool, sum: bool) -> Result<(), String> {
-            let what = format!("sparse matrix of {texts:?} with ByteTokenizer(graphemes={g}, code_point_groups={code_points}, prefix/suffix={fix}, sum={sum})");
+        pub fn check_sparse(texts: &[&str], g: bool, code_points: bool, fix: bool, sum: bool) -> Result<(), String> { check_sparse_mixed(texts, g, code_points, fix, sum, false) }
+        /// mixed: the items alternate between the given aggregation and the other one (a batch may mix groupings)
+        pub fn check_sparse_mixed(texts: &[&str], g: bool, code_points: bool, fix: bool, sum: bool, mixed: bool) -> Result<(), String> {
+            let what = format!("sparse matrix of {texts:?} with ByteTokenizer(graphemes={g}, code_point_groups={code_points}, prefix/suffix={fix}, sum={sum}, alternating aggregation={mixed})");
             let t = tok(g, code_points, fix, sum).map_err(|e| e.to_string())?;
+            let t2 = tok(g, code_points, fix, !sum).map_err(|e| e.to_string())?;
             let mut gs = vec![];
             let mut lengths = vec![];
-            for x in texts { let (ids, gr) = grouping_of(&t, x, &what)?; lengths.push(ids.len()); gs.push(gr); }
+            for (k, x) in texts.iter().enumerate() { let (ids, gr) = grouping_of(if mixed && k % 2 == 1 { &t2 } else { &t }, x, &what)?; lengths.push(ids.len()); gs.push(gr); }
             let refs: Vec<&Grouping> = gs.iter().collect();
             let r = std::panic::catch_unwind(std::panic::AssertUnwindSafe(|| token_groups_to_sparse_coo_matrix(&refs, &lengths)));
             let m = match r { Err(_) => return Err(format!("{what}: panics")), Ok(Err(e)) => return Err(format!("{what}: failed: {e}")), Ok(Ok(m)) => m };
@@ -1093,11 +1180,12 @@ mod probes {
                     return Err(format!("{what}: entry {k} = ({b},{gi},{ti}) outside the declared size {:?}", m.size));
                 }
                 if !seen.insert((b, ti)) { return Err(format!("{what}: token ({b},{ti}) has more than one entry")); }
-                if sum && m.values[k] != 1.0 { return Err(format!("{what}: weight {} under sum aggregation", m.values[k])); }
+                let item_sum = gs[b as usize].1 == GroupAggregation::Sum;
+                if item_sum && m.values[k] != 1.0 { return Err(format!("{what}: weight {} under sum aggregation (item {b})", m.values[k])); }
                 *sums.entry((b, gi)).or_insert(0.0) += m.values[k];
             }
-            if !sum {
-                for ((b, gi), s) in sums { if (s - 1.0).abs() > 1e-4 { return Err(format!("{what}: weights of group ({b},{gi}) sum to {s}")); } }
+            for ((b, gi), s) in sums {
+                if gs[b as usize].1 != GroupAggregation::Sum && (s - 1.0).abs() > 1e-4 { return Err(format!("{what}: mean weights of group ({b},{gi}) sum to {s}")); }
             }
             Ok(())
         }
@@ -1161,7 +1249,7 @@ mod probes {
                 "groups" => check_groups(input["text"].as_str().unwrap_or(""), b("graphemes"), b("code_points"), b("fix"), b("sum")),
                 "sparse" => {
                     let texts: Vec<&str> = input["texts"].as_array().map(|a| a.iter().filter_map(|x| x.as_str()).collect()).unwrap_or_default();
-                    check_sparse(&texts, b("graphemes"), b("code_points"), b("fix"), b("sum"))
+                    check_sparse_mixed(&texts, b("graphemes"), b("code_points"), b("fix"), b("sum"), b("mixed"))
                 }
                 _ => {
                     let lens: Vec<(usize, usize)> = input["lens"].as_array().map(|a| a.iter().map(|p| (p[0].as_u64().unwrap_or(0) as usize, p[1].as_u64().unwrap_or(0) as usize)).collect()).unwrap_or_default();
@@ -1200,8 +1288,11 @@ mod probes {
                 for i in 0..small.len() { for j in 0..small.len() {
                     for batch in [vec![small[i]], vec![small[i], small[j]], vec![small[j], small[i], small[(i + j) % small.len()]]] {
                         cases += 1;
-                        if let Err(e) = check_sparse(&batch, f(0), f(1), f(2), f(3)) {
-                            add(&mut found, "sparse", json!({"what": "sparse", "texts": batch, "graphemes": f(0), "code_points": f(1), "fix": f(2), "sum": f(3)}), e);
+                        for mixed in [false, true] {
+                            if mixed && batch.len() < 2 { continue; }
+                            if let Err(e) = check_sparse_mixed(&batch, f(0), f(1), f(2), f(3), mixed) {
+                                add(&mut found, "sparse", json!({"what": "sparse", "texts": batch, "graphemes": f(0), "code_points": f(1), "fix": f(2), "sum": f(3), "mixed": mixed}), e);
+                            }
                         }
                     }
                 } }
@@ -1259,7 +1350,9 @@ mod probes {
                 vec![], vec![("ab", 0)], vec![("ab", 0), ("abc", 1)], vec![("ab", 0), ("bc", 1), ("abc", 2)],
                 vec![("aa", 0), ("aaa", 1), ("aaaa", 2), (" a", 3)], vec![(" a", 0), (" ab", 1), ("ca", 2)], vec![("\u{e4}", 0), ("a\u{e4}", 1), ("bb", 2)],
             ];
-            let texts = all_texts(&["a", "b", "c", " ", "\u{e4}", "\n"], 5);
+            let mut texts = all_texts(&["a", "b", "c", " ", "\u{e4}", "\n"], 5);
+            // texts that literally spell special tokens (plain text when special-token parsing is off)
+            texts.extend(all_texts(&["<unk>", "<pad>", "<bos>", " ", "ab"], 3));
             let mut found: Vec<(Value, String, String)> = vec![];
             let mut cases = 0usize;
             for tb in &tables {
